@@ -148,8 +148,14 @@ pub fn cases(rng: &mut Rng, n: u64) -> Vec<Vec<String>> {
                 out.push(lines);
             }
             // ---- read path: legacy only, legacy then new, new then legacy
-            for order in ["legacy-only", "legacy-first", "new-first"] {
+            // a ContentId-typed legacy value is additionally written the way older files spell it: a `Content` element
+            // holding <url>TEXT</url> (an empty text included) or <null></null>
+            let spell_kinds: &[&str] = if matches!(v, Variant::ContentId(_)) { &["typed", "content-url", "content-null"] } else { &["typed"] };
+            for (spell, order) in spell_kinds.iter().flat_map(|s| ["legacy-only", "legacy-first", "new-first"].into_iter().map(move |o| (*s, o))) {
                 if order != "legacy-only" && explicit.is_none() {
+                    continue;
+                }
+                if spell == "content-null" && !matches!(&v, Variant::ContentId(c) if c.as_str().is_empty()) {
                     continue;
                 }
                 let st = Style { indent: 1, cdata_pct: 0, wrap: 0, alt_floats: false, self_close: false, uuid_referents: true, comments: false };
@@ -159,8 +165,20 @@ pub fn cases(rng: &mut Rng, n: u64) -> Vec<Vec<String>> {
                 r.open("Properties", &[]);
                 let none_ref = |_: Ref| None;
                 let no_md5 = |_: &[u8]| String::new();
-                let legacy = |r: &mut Renderer| {
-                    r.property(&p.old, &v, &none_ref, &no_md5);
+                let legacy = |r: &mut Renderer| match (&v, spell) {
+                    (Variant::ContentId(c), "content-url") => {
+                        r.open("Content", &[("name", p.old.as_str())]);
+                        r.leaf("url", &[], c.as_str(), true);
+                        r.close("Content");
+                    }
+                    (Variant::ContentId(_), "content-null") => {
+                        r.open("Content", &[("name", p.old.as_str())]);
+                        r.leaf("null", &[], "", false);
+                        r.close("Content");
+                    }
+                    _ => {
+                        r.property(&p.old, &v, &none_ref, &no_md5);
+                    }
                 };
                 let newp = |r: &mut Renderer| {
                     if let Some((n, w)) = &explicit {
@@ -182,7 +200,7 @@ pub fn cases(rng: &mut Rng, n: u64) -> Vec<Vec<String>> {
                 r.close("Item");
                 r.close("roblox");
                 let text = r.out.clone();
-                let mut lines = text_case_lines(text.as_bytes(), "IgnoreUnknown", None, &[("stream".into(), "mig".into()), ("order".into(), order.into())]);
+                let mut lines = text_case_lines(text.as_bytes(), "IgnoreUnknown", None, &[("stream".into(), "mig".into()), ("order".into(), order.into()), ("spell".into(), spell.into())]);
                 lines.push(migline.clone());
                 lines.push(format!("miglegacy {}", tokens(&v)));
                 if order != "legacy-only" {
